@@ -17,7 +17,9 @@ from vf import core, gen, snapshot, contracts
 PROP = 'C08'
 LEVEL = 'exploration'
 RULE = ('random chains of 1-8 operations (+ - * / with dataset / ndarray / '
-        'int / float right operands, negative numbers and zero included, '
+        'int / float right operands, negative numbers and zero included '
+        '(also -2**63 and signed integer arrays holding the lower limit of '
+        'their type, on unmasked datasets), '
         'interleaved with copy, mask, squeeze) on datasets of shape () to '
         '4-d with bins as edges, centres, mixed or none; a case is distinct '
         'by (shape, bins kind, sequence of (operation, operand kind, sign '
@@ -143,7 +145,24 @@ def make_operand(rng, cur):
     shp = np.shape(cur.value)
     kind = rng.choice(['dataset', 'dataset', 'dataset', 'int', 'float',
                        'float', 'negfloat', 'negint', 'zero', 'ndarray',
-                       'ndarray_bc', 'ndarray_bad', 'dataset_bad'])
+                       'ndarray_bc', 'ndarray_bad', 'dataset_bad',
+                       'ndarray'])
+    masked = isinstance(cur.value, np.ma.MaskedArray)
+    # (not on masked datasets: numpy.ma's own division hides every cell
+    # when the divisor is the most negative integer of its type, because
+    # abs() of that integer overflows -- numpy is trusted, not judged)
+    if kind == 'negint' and rng.random() < 0.15 and not masked:
+        # the most negative 64-bit integer (its absolute value does not exist
+        # among the 64-bit integers)
+        return -2 ** 63, kind, '-'
+    if kind == 'ndarray' and rng.random() < 0.2 and not masked:
+        # signed integers (counts, weights) down to the lower limit of their
+        # type
+        dtype = np.dtype(rng.choice(['i1', 'i2', 'i4', 'i8']))
+        size = int(np.prod(shp, dtype=int))
+        flat = [rng.randint(-4, 9) or 1 for _ in range(size)]
+        flat[rng.randrange(size)] = int(np.iinfo(dtype).min)
+        return np.array(flat, dtype=dtype).reshape(shp), kind, '-'
     if kind == 'dataset':
         val = gen.values(rng, shp)
         if rng.random() < 0.7:
